@@ -45,6 +45,15 @@ def chronoTable : List (String × String) := [
 def taskClose : String :=
   "{ t.lock.Lock() defer t.lock.Unlock() if t.kill { return } t.kill = true if t.timer != nil && (t.total <= 0 || t.trigger < t.total) { t.timer.Stop() } }"
 
+/-- `schedulerTask.Next`: first the wait until `prev` (the expiration of the timer run that is starting;
+    `MV.Model.Scheduler.runTimer`'s guard `e ≤ now`), then `Task.next` / `Task.bump` -/
+def taskNext : String :=
+  "{ if early := time.Until(prev); early > 0 { time.Sleep(early) } t.lock.Lock() defer t.lock.Unlock() if t.kill || (t.total > 0 && t.trigger >= t.total) { if t.expr == nil { return time.Time{} } } if t.expr != nil { next := t.expr.Next(prev) return next } if t.trigger == 0 { t.trigger++ return prev.Add(t.after) } t.trigger++ return prev.Add(t.interval) }"
+
+/-- `schedulerTask.caller`, as `MV.Model.Scheduler.caller` transcribes it -/
+def taskCaller : String :=
+  "{ t.lock.RLock() if t.kill && !t.separate { t.lock.RUnlock() return } if t.total > 0 && t.trigger > t.total { t.lock.RUnlock() t.scheduler.UnregisterTask(t.name) } else { t.lock.RUnlock() } t.function.Call(t.args) }"
+
 /-- `case onSchedulerFunc:` of `processMessage` -/
 def schedulerFuncCase : String := "m()"
 
